@@ -439,6 +439,7 @@ static void emitCall(FnCtx &X, const CallBase &CB, std::ostream &os, const std::
     return;
   }
   if (cutCall(CB)) { os << "__vf_str_empty(" << arg(0) << ");"; return; }
+  if (CF && CF->getName() == "vf_buffer_room") { os << res << "(uint64_t)(__CPROVER_OBJECT_SIZE(" << arg(0) << ") - __CPROVER_POINTER_OFFSET(" << arg(0) << "));"; return; }
   std::string callee;
   FunctionType *FT = CB.getFunctionType();
   if (CF) callee = gname(CF);
@@ -778,7 +779,7 @@ int main(int argc, char **argv) {
   for (auto &F : *M) {
     if (!live.count(&F) || F.isIntrinsic()) continue;
     StringRef n = F.getName();
-    if (n == "vf_assert" || n == "vf_assume" || n == "vf_cover") continue;
+    if (n == "vf_assert" || n == "vf_assume" || n == "vf_cover" || n == "vf_buffer_room") continue;
     if (Redirects.count(n.str())) continue;
     fwd << protoOf(F) << ";\n";
     if (Renames.count(n.str())) fwd << protoOf(F, true) << ";\n";
